@@ -218,6 +218,54 @@ def _dispatch_chain(run: Run, prog: Program, model: Model) -> None:
                          witness="a freed custom schema's printed form / result is returned for a new custom schema at the same address or key")
         if not hits:
             run.holds("DISPATCH-STATE", f"{vis}.visit", model.visitors[vis].loc, "no state consulted before dispatching to the hook", nontrivial=False)
+    # ... nor may any function of the dispatch chain answer from module-level state that the chain itself fills
+    import ast as _ast
+    chain = []
+    sb = model.schema_base
+    for nm in ("__accept__",):
+        m = sb.lookup(nm)
+        if m is not None:
+            chain.append(m)
+    for nm in ("visit", "__getattr__"):
+        m = model.visitor_base.lookup(nm)
+        if m is not None:
+            chain.append(m)
+    for vis in ("Validator", "Substitutor", "Representor", "Generator"):
+        m = model.visitors[vis].lookup("visit")
+        if m is not None and m not in chain:
+            chain.append(m)
+    cs = [c for c in prog.subclasses(sb) if c.name == "CustomSchema"]
+    for c in cs:
+        for nm, m in c.methods.items():
+            if nm.startswith("__d42_"):
+                chain.append(m)
+    for m in chain:
+        mod = m.module
+        written: Dict[str, int] = {}
+        read: Dict[str, int] = {}
+        for n in _ast.walk(m.node):
+            if isinstance(n, _ast.Subscript) and isinstance(n.value, _ast.Name) and n.value.id in mod.bindings \
+                    and mod.bindings[n.value.id].kind == "assign" and not any(n.value.id == a.arg for a in m.node.args.args):
+                (written if isinstance(n.ctx, (_ast.Store, _ast.Del)) else read).setdefault(n.value.id, n.lineno)
+            if isinstance(n, _ast.Call) and isinstance(n.func, _ast.Attribute) and isinstance(n.func.value, _ast.Name) \
+                    and n.func.value.id in mod.bindings and mod.bindings[n.func.value.id].kind == "assign":
+                if n.func.attr in ("setdefault", "update", "append", "add", "pop", "clear", "__setitem__"):
+                    written.setdefault(n.func.value.id, n.lineno)
+                if n.func.attr in ("get", "setdefault", "pop", "__getitem__"):
+                    read.setdefault(n.func.value.id, n.lineno)
+            if isinstance(n, _ast.Compare) and any(isinstance(op, (_ast.In, _ast.NotIn)) for op in n.ops):
+                for cmp_ in n.comparators:
+                    if isinstance(cmp_, _ast.Name) and cmp_.id in mod.bindings and mod.bindings[cmp_.id].kind == "assign":
+                        read.setdefault(cmp_.id, n.lineno)
+        both = sorted(set(written) & set(read))
+        c_ = f"{m.qualname.split('.')[-2]}.{m.name}: module-level state"
+        if both:
+            run.violated("DISPATCH-STATE", c_ + f" `{both[0]}`", f"{mod.path}:{read[both[0]]}",
+                         f"the dispatch consults the module-level table `{both[0]}` that it fills itself (line {written[both[0]]}): "
+                         "what a later visitor / schema gets depends on which one came first",
+                         witness="two differently configured instances of one visitor class: custom members of the second are handled by the first")
+        else:
+            run.holds("DISPATCH-STATE", c_, m.loc, "no module-level table is both filled and consulted here", nontrivial=False)
     run.floor("DISPATCH-CHAIN", 8)
 
 
